@@ -447,6 +447,10 @@ def run_loop(eng, node, st, ordn, lc, idxname, d, guard_fn, bind_fn, step_fn, gh
     g = guard_fn(ex)
     ex.assume(z3.Not(g))
     ex.trail.append("loop%d:exit" % ordn)
+    for label, clause in f.contract.labelled(lc.get('lemmas_exit', []), 'exitstep'):
+        t = eval_bool(eng, clause, ex.env, ex, old=(f.entry_env, f.entry_heap))
+        eng.oblige(ex, "loop%d:%s" % (ordn, label), 'assert', t, node)
+        ex.assume(t)
     # 4. body branch
     body = head
     gb = guard_fn(body)
@@ -466,6 +470,11 @@ def run_loop(eng, node, st, ordn, lc, idxname, d, guard_fn, bind_fn, step_fn, gh
         f.loop_frames.pop()
     for (o, s) in bouts:
         if o[0] in ('normal', 'continue'):
+            # intermediate proof steps: each is an obligation of its own, then available as a hypothesis
+            for label, clause in f.contract.labelled(lc.get('lemmas_end', []), 'step'):
+                t = eval_bool(eng, clause, s.env, s, old=(f.entry_env, f.entry_heap))
+                eng.oblige(s, "loop%d:%s" % (ordn, label), 'assert', t, node)
+                s.assume(t)
             for gname, upd in (lc.get('ghost_update') or {}).items():
                 s.env[gname] = eval_clause(eng, upd, s.env, s, old=(f.entry_env, f.entry_heap))
             step_fn(s)
